@@ -334,6 +334,37 @@ theorem C12_cookie_no_injection (morsels : List Text) (ls : List (Bytes × Bytes
     (h : cookieLines morsels = .ok ls) : ls.length = morsels.length :=
   (mapM_ok_forall cookieLine (fun _ => True) (fun _ _ _ => trivial) morsels ls h).2
 
+/-- **C12_response_clean**: whatever the status code, reason phrase, header-map items and cookie
+    morsels are, what the repaired `Response.finalize` hands to the server is a clean status line
+    and clean header tuples, exactly one per header-map item and per morsel. -/
+theorem C12_response_clean (r : Resp) (st : Bytes) (hs : List (Bytes × Bytes))
+    (h : finalizeEmit r = .ok (st, hs)) :
+    (∀ b ∈ st, Clean b) ∧ (∀ o ∈ hs, (∀ b ∈ o.1, Clean b) ∧ (∀ b ∈ o.2, Clean b)) ∧
+    hs.length = r.items.length + r.morsels.length := by
+  unfold finalizeEmit at h
+  cases h1 : statusLine r.code r.reason with
+  | error e => rw [h1] at h; cases h
+  | ok st' =>
+    cases h2 : output r.items with
+    | error e => rw [h1, h2] at h; cases h
+    | ok hs' =>
+      cases h3 : cookieLines r.morsels with
+      | error e => rw [h1, h2, h3] at h; cases h
+      | ok cs' =>
+        rw [h1, h2, h3] at h
+        have e1 : st = st' := by cases h; rfl
+        have e2 : hs = hs' ++ cs' := by cases h; rfl
+        subst e1 e2
+        have ho := C12_output_clean r.items hs' h2
+        have hc := (C12_status_cookie_clean r.code r.reason r.morsels).2 cs' h3
+        have hn := C12_cookie_no_injection r.morsels cs' h3
+        refine ⟨statusLine_clean _ _ _ h1, ?_, by simp [ho.2, hn]⟩
+        intro o hmem
+        simp only [List.mem_append] at hmem
+        rcases hmem with hmem | hmem
+        · exact ho.1 o hmem
+        · exact hc o hmem
+
 /-- non-vacuity: the F12 witness goes through the repaired assembly as ONE clean tuple -/
 example : cookieLines ["Set-Cookie: k=v; Path=/x\r\nX-Evil: 1".toList] =
     .ok [("Set-Cookie".toList.map fun c => UInt8.ofNat c.toNat,
@@ -578,6 +609,34 @@ theorem errorPage_isSome (status message traceback version : Text) :
       n = kStatus ∨ n = kMessage ∨ n = kTraceback ∨ n = kVersion := by decide +kernel
   intro n hn
   rcases this n hn with rfl | rfl | rfl | rfl <;> simp [lookup, kStatus, kMessage, kTraceback, kVersion]
+
+/-- **C12_error_page_failed_escaped** (repaired `except` branch of `get_error_page`, F2): in the
+    message shown when the custom error page failed, every `<` and `>` belongs to the two literal
+    `<br />` the code writes — neither the original message nor the exception text contributes
+    markup — for every message and every exception text. -/
+theorem C12_error_page_failed_escaped (message e : Text) :
+    (∀ p ∈ failedMessageMarked message e, (p.1 = '<' ∨ p.1 = '>') → p.2 = true) ∧
+    failedMessage message e = (failedMessageMarked message e).map Prod.fst := by
+  refine ⟨?_, rfl⟩
+  intro p hp hm
+  have hesc : ∀ (v : Text) (c : Char), c ∈ htmlEscape v → (c = '<' ∨ c = '>') → False := by
+    intro v c hc h
+    have := htmlEscape_no_markup v c hc
+    rcases h with h | h
+    · exact this.1 h
+    · exact this.2 h
+  unfold failedMessageMarked at hp
+  simp only [List.mem_append, List.mem_map] at hp
+  rcases hp with ((hp | ⟨c, _, rfl⟩) | ⟨c, _, rfl⟩) | ⟨c, hc, rfl⟩
+  · split at hp
+    · cases hp
+    · simp only [List.mem_append, List.mem_map] at hp
+      rcases hp with ⟨c, hc, rfl⟩ | ⟨c, _, rfl⟩
+      · exact absurd hm (fun h => hesc message c hc h)
+      · rfl
+  · rfl
+  · rfl
+  · exact absurd hm (fun h => hesc e c hc h)
 
 theorem xmlAttrEscapeChar_no_markup (x c : Char) (h : c ∈ xmlAttrEscapeChar x) : c ≠ '<' ∧ c ≠ '>' := by
   unfold xmlAttrEscapeChar at h
